@@ -62,6 +62,8 @@ class Harness(object):
         kw = dict(retries=0, timeout=3)
         if fault and fault[0] == 'drop-first':
             kw = dict(retries=fault[1], retry_on_empty=True, retry_on_invalid=True, backoff=0.3, timeout=3)
+        if fault and fault[0] in ('dropd-first', 'late-first'):
+            kw = dict(timeout=3)                      # the library's default retry options
         if broadcast:
             kw['broadcast_enable'] = True
         me_ = self
@@ -136,9 +138,15 @@ class Harness(object):
         if p is None:
             return
         m = pdu.decode('req', p['pdu'])
-        if self.fault and self.fault[0] == 'drop-first' and self.dropped is None:
+        if self.fault and self.fault[0] in ('drop-first', 'dropd-first') and self.dropped is None:
             self.dropped = p['unit'] - UNIT
             return                                   # the device misses this request: its sender times out
+        if self.fault and self.fault[0] == 'late-first' and self.dropped is None:
+            # the device answers this request only after its sender has given up
+            self.dropped = p['unit'] - UNIT
+            r = datamodel.execute(self.store, m)
+            line.push(adu.build(self.framing, p['unit'], pdu.encode(r), tid=p['tid'] or 0), 3.6)
+            return
         if p['unit'] == 0 and self.broadcast:
             datamodel.execute(self.store, m)
             return                                   # a broadcast is never answered
@@ -230,7 +238,7 @@ def judge(acc, s, h, name, bound):
                 continue
             d = clientsim.describe(r)
             want = h.expected(m)
-            if h.fault and h.fault[1] == 0 and h.dropped == t and d[0] == 'error' and not h.__dict__.get('_excused'):
+            if h.fault and h.fault[0] in ('drop-first', 'dropd-first', 'late-first') and h.fault[1] == 0 and h.dropped == t and d[0] == 'error' and not h.__dict__.get('_excused'):
                 h._excused = True                    # the one request the device missed, no retry configured: an error object is the answer
                 continue
             if d[0] != 'response' or d[2] != want:
@@ -259,9 +267,13 @@ CONFIGS = {
 def parse_name(name):
     head, sh = name.split(':')
     fault = None
-    if '+drop' in head:
+    if '+drop' in head and '+dropd' not in head:
         head, r = head.split('+drop')
         fault = ('drop-first', int(r))
+    for tag in ('dropd', 'late'):
+        if '+' + tag in head:
+            head = head.replace('+' + tag, '')
+            fault = (tag + '-first', 0)
     if '+raise' in head:
         head = head.replace('+raise', '')
         fault = ('raise-first', 0)
@@ -305,6 +317,8 @@ def run(tier, seed):
     # the other callers are queued meanwhile
     for k in ('tcp', 'serial-rtu'):
         shards.append((k, (2, 2), False, 2, ('raise-first', 0)))
+        shards.append((k, (2, 2), False, 2, ('dropd-first', 0)))      # an unanswered request under the default retry options
+        shards.append((k, (2, 2), False, 2, ('late-first', 0)))       # ... and one answered only after its sender gave up
         shards.append((k, (2, 1), False, 2, ('slow', 0)))
         shards.append((k, (3, 1), False, 2, ('slow', 0)))
         for retries in (0, 1):
